@@ -124,7 +124,7 @@ func runConcCase(c *kit.Ctx, id string) {
 	}()
 	npeers := sp.Peers + 1 // + the honest peer of the final drain
 	ch := genChain(r, sp.Chain, npeers)
-	a := newRQ(ch, npeers)
+	a := newRQ(ch, npeers, false)
 	counts := []int{1, 2, 3, 5, 128}
 
 	var clock int64
@@ -371,10 +371,6 @@ func runConcCase(c *kit.Ctx, id string) {
 		if bad {
 			break
 		}
-		if len(batch) > sp.MaxRes {
-			c.Violation("results-batch-over-cap", fmt.Sprintf("Results returned %d items, cap is %d", len(batch), sp.MaxRes), witness)
-			bad = true
-		}
 		for _, r := range batch {
 			c.Evals(1)
 			if b := rc.check(r.Header, r.Transactions, r.Pending); b != nil {
@@ -389,7 +385,7 @@ func runConcCase(c *kit.Ctx, id string) {
 	if !bad {
 		c.Evals(1)
 		c.Count("pool_snapshots", 1)
-		if b := checkPools(ch, a.q.VerifPools(), nsch, rc.next, nil, npeers); b != nil {
+		if b := checkPools(ch, a.q.VerifPools(), nsch, rc.next, nil, npeers, false); b != nil {
 			c.Violation(b.class, "after the concurrent phase: "+b.msg, witness)
 			bad = true
 		}
@@ -452,7 +448,7 @@ func runConcCase(c *kit.Ctx, id string) {
 	}
 	if !bad {
 		c.Evals(1)
-		if b := checkPools(ch, a.q.VerifPools(), nsch, rc.next, nil, npeers); b != nil {
+		if b := checkPools(ch, a.q.VerifPools(), nsch, rc.next, nil, npeers, false); b != nil {
 			c.Violation(b.class, "end: "+b.msg, witness)
 		}
 	}
